@@ -202,12 +202,19 @@ def resolve_presentation(p, shared):
         try:
             r = MoleculeResolver.from_fragment_dicts(p['base_string'], lib, **kw)
             cg, aa = r.resolve_all()
+            dump_ = util.canonical_dump(cg) + '\n' + util.canonical_dump(aa)
+            # the caller then edits the RESULT in place (its own graphs): the library it handed in must not notice
+            for g_ in (cg, aa):
+                for _, d_ in g_.nodes(data=True):
+                    for v_ in d_.values():
+                        if isinstance(v_, (list, dict)):
+                            v_.clear()
         finally:
             after = [{name: contracts.snap_graph(g) for name, g in d.items()} for d in lib]
             if after != before:
                 contracts.rec('C12', 'c12.library_modified', f'the fragment dictionaries handed to from_fragment_dicts for {p["base_string"]}.{p["frag_string"]} were changed by constructing / resolving')
                 shared.dicts.pop(p['frag_string'], None)
-        return util.canonical_dump(cg) + '\n' + util.canonical_dump(aa)
+        return dump_
     cg, aa = r.resolve_all()
     return util.canonical_dump(cg) + '\n' + util.canonical_dump(aa)
 
